@@ -1808,6 +1808,72 @@ sweep_inherit(int which)
 	VT->traces++;
 }
 
+/* C11, many peers connected at the same time: K peers (users 2000+j, all different) connect and stay connected, then
+ * each sends its ADD in the given order; every peer gets exactly one success reply on its own socket, no two live
+ * peers share the daemon's per-connection state, and every task belongs to the user who sent it */
+static void
+conns_mode(int K, int order)
+{
+	static struct hx_conn_s hs[80];
+	struct hx_task_s obs[HX_MAXTASKS];
+	char req[1024], st0[32], shape[64];
+	int live = 0, nacc = 0;
+
+	snprintf(shape, sizeof(shape), "conns/K=%d/%s", K, order == 0 ? "first-come" : order == 1 ? "last-come" : "odd-then-even");
+	snprintf(hist, sizeof(hist), "%d peers (uids 2000..) connect and hold their connections, then each sends ADD(c<j>, oneshot) in order %s",
+		 K, order == 0 ? "of arrival" : order == 1 ? "of arrival reversed" : "odd ones first");
+	vd_desc("%s", hist);
+	tpl_stamp(st0, sizeof(st0), HX_T0 + 3600);
+	for (int j = 0; j < K; j++) {
+		hx_conn_open(&hs[j], 2000U + (unsigned)j);
+		VT->transitions++;
+		if (hs[j].refused) {
+			if (live < 64) {
+				report("refused", shape, "peer %d turned away while only %d connections were open", j, live);
+				return;
+			}
+			continue;
+		}
+		for (int i = 0; i < j; i++) {
+			if (!hs[i].refused && hs[i].c == hs[j].c) {
+				report("shared-conn", shape, "peer %d (uid %u) was handed the connection state of peer %d (uid %u) who is still connected", j, 2000U + j, i, 2000U + i);
+				return;
+			}
+		}
+		live++;
+	}
+	for (int q = 0; q < K; q++) {
+		int j = order == 0 ? q : order == 1 ? K - 1 - q : (q < K / 2 ? 2 * q + 1 : 2 * (q - K / 2));
+		struct hx_reply_s rp;
+		size_t o;
+		if (j >= K || hs[j].refused) continue;
+		o = (size_t)snprintf(req, sizeof(req),
+			"BEGIN:VCALENDAR\nVERSION:2.0\nMETHOD:PUBLISH\nBEGIN:VEVENT\nUID:c%02d\nSUMMARY:job\nDTSTART:%s\nEND:VEVENT\nEND:VCALENDAR\n", j, st0);
+		hx_conn_finish(&hs[j], &rp, req, o);
+		VT->transitions++;
+		if (rp.nsucc != 1 || rp.nfail) {
+			report("reply", shape, "peer %d (uid %u) got %d success and %d failure replies to its one ADD", j, 2000U + j, rp.nsucc, rp.nfail);
+			return;
+		}
+		nacc++;
+	}
+	{
+		int n = hx_observe(obs);
+		if (n != nacc) {
+			report("task-count", shape, "%d ADDs acknowledged, %d tasks in the daemon", nacc, n);
+			return;
+		}
+		for (int i = 0; i < n; i++) {
+			int j = atoi(obs[i].uid + 1);
+			if (obs[i].uid[0] != 'c' || obs[i].owner != 2000U + (unsigned)j) {
+				report("owner", shape, "task %s sent by uid %u belongs to uid %u", obs[i].uid, 2000U + (unsigned)j, obs[i].owner);
+				return;
+			}
+		}
+	}
+	VT->traces++;
+}
+
 static void
 enumerate(void)
 {
@@ -1873,6 +1939,34 @@ enumerate(void)
 			vd_count("traces", VT->traces);
 			vd_nontrivial();
 			vd_sample("series of %ld occurrences followed to its end", NS[q]);
+		}
+		return;
+	}
+	if (!strcmp(vd_opt("mode", "explore"), "conns")) {
+		static const int KS[] = {1, 2, 31, 32, 33, 62, 63, 64, 65, 70};
+		for (size_t q = 0; q < 3 * sizeof(KS) / sizeof(*KS); q++) {
+			const int K = KS[q / 3], order = (int)(q % 3);
+			if (!vd_next()) continue;
+			vd_shape("conns/K=%d", K);
+			memset(VT, 0, sizeof(*VT));
+			fflush(stdout);
+			pid_t c = fork();
+			if (c == 0) {
+				prctl(PR_SET_PDEATHSIG, SIGKILL);
+				conns_mode(K, order);
+				fflush(stdout);
+				_exit(0);
+			}
+			int st;
+			while (waitpid(c, &st, 0) < 0 && errno == EINTR);
+			if (!(WIFEXITED(st) && WEXITSTATUS(st) == 0)) {
+				vd_viol("crash/conns", "daemon image died with %d peers connected at once (status %#x)", K, st);
+			}
+			vd_count("states", VT->transitions + 1);
+			vd_count("transitions", VT->transitions);
+			vd_count("traces", VT->traces);
+			vd_nontrivial();
+			vd_sample("%d peers connected at once, order %d", K, order);
 		}
 		return;
 	}
